@@ -2,9 +2,63 @@
 Copy propagation.
 """
 
-from ..analysis import AssignDef, DefineUse, SyntaxCheck
+from ..analysis import AssignDef, DefineUse, DefineUseAnalysis, SyntaxCheck
+from ..analysis.reaching_defs import DefCtx
 from ..ast.fpyast import *
+from ..ast.visitor import DefaultVisitor
 from .subst_var import SubstVar
+
+
+class _SourceIntact(DefaultVisitor):
+    """
+    Finds the copies `x = y` that must not be propagated.
+
+    A use of `x` may only be replaced by `y` when `y` still denotes, at that
+    use, the definition it denoted at the copy: the copy reaching the use
+    is not enough, since `y` may have been redefined in between
+    (`x = y; y = y + 1; return x`), also by a loop or comprehension target.
+
+    Walks the function with the definitions reaching each point, the same
+    way the definition-use analysis resolves uses.
+    """
+
+    def_use: DefineUseAnalysis
+    prop: dict[AssignDef, Var]
+    blocked: set[AssignDef]
+
+    def __init__(self, def_use: DefineUseAnalysis, prop: dict[AssignDef, Var]):
+        self.def_use = def_use
+        self.prop = prop
+        self.blocked = set()
+
+    def _visit_var(self, e: Var, ctx: DefCtx):
+        d = self.def_use.find_def_from_use(e)
+        if isinstance(d, AssignDef) and d in self.prop:
+            src = self.prop[d]
+            if ctx.get(src.name) != self.def_use.find_def_from_use(src):
+                self.blocked.add(d)
+
+    def _visit_list_comp(self, e: ListComp, ctx: DefCtx):
+        ctx = ctx.copy()
+        for target, iterable in zip(e.targets, e.iterables):
+            self._visit_expr(iterable, ctx)
+            for name in target.names():
+                ctx[name] = self.def_use.find_def_from_site(name, e)
+        self._visit_expr(e.elt, ctx)
+
+    def _visit_while(self, stmt: WhileStmt, ctx: DefCtx):
+        # the condition is re-evaluated on every iteration
+        self._visit_expr(stmt.cond, self.def_use.in_defs[stmt.body])
+        self._visit_block(stmt.body, ctx)
+
+    def _visit_statement(self, stmt: Stmt, ctx: DefCtx):
+        return super()._visit_statement(stmt, self.def_use.reach[stmt])
+
+    @staticmethod
+    def blocked_copies(func: FuncDef, def_use: DefineUseAnalysis, prop: dict[AssignDef, Var]):
+        inst = _SourceIntact(def_use, prop)
+        inst._visit_function(func, {})
+        return inst.blocked
 
 
 class CopyPropagate:
@@ -43,9 +97,14 @@ class CopyPropagate:
             ):
                 # direct assignment: x = y
                 # substitute all occurences of this definition of `x` with `y`
-                if len(def_use.uses[d]) > 0:
-                    # optimization: only propagate if there is at least one use
+                if any(isinstance(u, Var) for u in def_use.uses[d]):
+                    # only propagate if there is at least one use to rewrite:
+                    # an indexed assignment `x[i] = e` uses `x` but is left alone
                     prop[d] = d.site.expr
+
+        # `y` must be unchanged between the copy and every use of `x`
+        for d in _SourceIntact.blocked_copies(func, def_use, prop):
+            del prop[d]
 
         if not prop:
             return func, False
